@@ -2,6 +2,7 @@ package engine
 
 import (
 	"fmt"
+	"strings"
 	"go/token"
 	"go/types"
 
@@ -387,6 +388,9 @@ func (e *Exec) merge(ss []*State) *State {
 		out.Ghost[k] = pick(func(s *State) *smt.Term {
 			if t, ok := s.Ghost[k]; ok {
 				return t
+			}
+			if strings.HasPrefix(k, "G|") {
+				return smt.Var("g0|"+k[2:], BV64)
 			}
 			return def
 		})
